@@ -717,6 +717,24 @@ fn run<A: ArchOps>(lines: Vec<String>, hang_ms: u64) {
                     None => "bad".into(),
                 }
             }
+            "clonefrom" => {
+                // Clone::clone_from on an existing unwinder (created as a plain clone when it does not exist yet)
+                let vid = t.next().to_string();
+                let uid = t.next();
+                match unws.get(uid).map(|u| u.clone()) {
+                    Some(src) => {
+                        match unws.get_mut(&vid) {
+                            Some(dst) => dst.clone_from(&src),
+                            None => {
+                                unws.insert(vid.clone(), src.clone());
+                            }
+                        }
+                        let g = A::generation(unws.get(&vid).unwrap());
+                        format!("gen {}", g)
+                    }
+                    None => "bad".into(),
+                }
+            }
             "clone" => {
                 let uid = t.next();
                 let vid = t.next().to_string();
